@@ -384,8 +384,11 @@ def valid(repo: Repo) -> List[Ob]:
     ]
     for q, key, pred, msg in checks:
         fi = repo.func(q)
-        (obs.append(ok("VALID", fi, key, P, fi.node, "validation present")) if pred(fi) else
-         obs.append(bad("VALID", fi, key, P, fi.node, msg)))
+        # the per-position operand-type test is also what makes the k-th factor meet a subsystem of the k-th declared kind (C03) and what
+        # "which operand types it accepts" (C15) rests on
+        PK = P + (("C03", "C15") if key == "operand-types" else ())
+        (obs.append(ok("VALID", fi, key, PK, fi.node, "validation present")) if pred(fi) else
+         obs.append(bad("VALID", fi, key, PK, fi.node, msg)))
     return obs
 
 
@@ -509,7 +512,7 @@ def outcome_space(repo: Repo) -> List[Ob]:
 def dim_floor(repo: Repo) -> List[Ob]:
     """an estimated cutoff is never smaller than the highest occupied level + 1"""
     obs: List[Ob] = []
-    P = ("C10",)
+    P = ("C10", "C12")          # … and the operator is then built for fewer levels than the target keeps ("at the dimension of the target")
     fcd = repo.cls("FockOperationType").methods["compute_dimensions"]
     arms, _ = match_arms(fcd, "FockOperationType")
     n = 0
@@ -818,118 +821,127 @@ def est_tail(repo: Repo) -> List[Ob]:
                 k += max(len(x.args) - 2, 0)
         return k
 
-    found = {"Vector": 0, "Matrix": 0}
-    wcount: Dict[str, int] = {}
-    n_ret = 0
-    for f in closure:
-        fn = getattr(f, "orig", f.node)
-        defs = single_defs(fn)
-        parents = {id(c): p for p in ast.walk(fn) for c in ast.iter_child_nodes(p)}
-        results = []
-        for blk_owner in [fn] + [x for x in walk_no_nested(fn) if isinstance(x, (ast.If, ast.For, ast.While, ast.With, ast.Try))]:
-            for fld in ("body", "orelse"):
-                blk = getattr(blk_owner, fld, None)
-                if not isinstance(blk, list):
-                    continue
-                for a in blk:
-                    if isinstance(a, ast.Assign) and len(a.targets) == 1 and isinstance(a.targets[0], ast.Name) and n_matmul(a.value) >= 1 and "state" in src(a.value):
-                        region = {id(y) for st in blk[blk.index(a):] for y in ast.walk(st)}
-                        results.append((a.targets[0].id, "Matrix" if n_matmul(a.value) >= 2 else "Vector", region))
-        for rname, kind, region in results:
-            found[kind] += 1
+    def _scan(closure, as_written):
+        obs: List[Ob] = []
+        found = {"Vector": 0, "Matrix": 0}
+        wcount: Dict[str, int] = {}
+        n_ret = 0
+        for f in closure:
+            fn = getattr(f, "orig", f.node) if as_written else f.node
+            defs = single_defs(fn)
+            parents = {id(c): p for p in ast.walk(fn) for c in ast.iter_child_nodes(p)}
+            results = []
+            for blk_owner in [fn] + [x for x in walk_no_nested(fn) if isinstance(x, (ast.If, ast.For, ast.While, ast.With, ast.Try))]:
+                for fld in ("body", "orelse"):
+                    blk = getattr(blk_owner, fld, None)
+                    if not isinstance(blk, list):
+                        continue
+                    for a in blk:
+                        if isinstance(a, ast.Assign) and len(a.targets) == 1 and isinstance(a.targets[0], ast.Name) and n_matmul(a.value) >= 1 and "state" in src(a.value):
+                            region = {id(y) for st in blk[blk.index(a):] for y in ast.walk(st)}
+                            results.append((a.targets[0].id, "Matrix" if n_matmul(a.value) >= 2 else "Vector", region))
+            for rname, kind, region in results:
+                found[kind] += 1
 
-            def _offsets(sl: ast.AST) -> Set[int]:
-                """trailing levels a subscript reads: r[-1] -> {1}, r[-2:] -> {1, 2}, r[-1, -1] -> {1}, r[-2:, 0] -> {1, 2}"""
-                first = sl.elts[0] if isinstance(sl, ast.Tuple) and sl.elts else sl
-                def neg(e):
-                    return e.operand.value if isinstance(e, ast.UnaryOp) and isinstance(e.op, ast.USub) and isinstance(e.operand, ast.Constant) and isinstance(e.operand.value, int) else None
-                if neg(first) is not None:
-                    return {neg(first)}
-                if isinstance(first, ast.Slice) and first.lower is not None and neg(first.lower) is not None and first.upper is None and first.step is None:
-                    return set(range(1, neg(first.lower) + 1))
-                return set()
+                def _offsets(sl: ast.AST) -> Set[int]:
+                    """trailing levels a subscript reads: r[-1] -> {1}, r[-2:] -> {1, 2}, r[-1, -1] -> {1}, r[-2:, 0] -> {1, 2}"""
+                    first = sl.elts[0] if isinstance(sl, ast.Tuple) and sl.elts else sl
+                    def neg(e):
+                        return e.operand.value if isinstance(e, ast.UnaryOp) and isinstance(e.op, ast.USub) and isinstance(e.operand, ast.Constant) and isinstance(e.operand.value, int) else None
+                    if neg(first) is not None:
+                        return {neg(first)}
+                    if isinstance(first, ast.Slice) and first.lower is not None and neg(first.lower) is not None and first.upper is None and first.step is None:
+                        return set(range(1, neg(first.lower) + 1))
+                    return set()
 
-            def _base_is_result(v: ast.AST) -> bool:
-                # the trial result itself, or its diagonal
-                if src(v) == rname:
-                    return True
-                return isinstance(v, ast.Call) and call_np(v) in ("diag", "diagonal") and v.args and src(v.args[0]) == rname
-
-            def is_tail(sub: ast.Subscript) -> bool:
-                return _base_is_result(sub.value) and bool(_offsets(sub.slice))
-
-            def outer_sub(x: ast.AST) -> ast.AST:
-                while isinstance(parents.get(id(x)), ast.Subscript) and parents[id(x)].value is x:
-                    x = parents[id(x)]
-                return x
-
-            def wrapped(x: ast.AST, pred) -> bool:
-                """some enclosing expression of x (through once-bound names that carry it) satisfies pred"""
-                seen = 0
-                while x is not None and seen < 40:
-                    seen += 1
-                    if isinstance(x, ast.expr) and pred(x):
+                def _base_is_result(v: ast.AST) -> bool:
+                    # the trial result itself, or its diagonal
+                    if src(v) == rname:
                         return True
-                    p_ = parents.get(id(x))
-                    if isinstance(p_, ast.Assign) and len(p_.targets) == 1 and isinstance(p_.targets[0], ast.Name) and p_.value is x:
-                        # follow the use sites of the name (a name bound in both level branches – `tail = …` – shares its uses: the predicate has
-                        # to hold at every one of them)
-                        uses = [u for u in ast.walk(fn) if isinstance(u, ast.Name) and u.id == p_.targets[0].id and isinstance(u.ctx, ast.Load)]
-                        return bool(uses) and all(wrapped(u, pred) for u in uses)
-                    if isinstance(p_, (ast.stmt, ast.comprehension)) or p_ is None:
-                        return False
-                    x = p_
-                return False
+                    return isinstance(v, ast.Call) and call_np(v) in ("diag", "diagonal") and v.args and src(v.args[0]) == rname
 
-            # (a) tail guard
-            tails = [outer_sub(x) for x in ast.walk(fn) if id(x) in region and isinstance(x, ast.Subscript) and is_tail(x)]
-            guarded = False
-            for t in tails:
-                # the comparison the tail value ends up in
-                modulus = wrapped(t, lambda e: is_abs(e) is not None or is_abs2(e) is not None or (kind == "Matrix" and isinstance(e, ast.Attribute) and e.attr == "real"))
-                cmp_reach = wrapped(t, lambda e: isinstance(e, ast.Compare))
-                if not cmp_reach:
-                    continue
-                guarded = True
-                (obs.append(ok("EST-TAIL", fi, f"tail-guard@{kind}", P, t, "the tail guard compares a modulus")) if modulus else
-                 obs.append(bad("EST-TAIL", fi, f"tail-guard@{kind}", P, t,
-                                f"the tail guard compares `{src(t)}` itself with its bound: a negative or complex last amplitude passes the guard whatever its size, so the estimate depends on the phase of the parameter")))
-            if not guarded:
-                obs.append(bad("EST-TAIL", fi, f"tail-guard@{kind}", P, fn, "the estimate is accepted without looking at the last level of the trial space: weight pushed against the cutoff goes unnoticed"))
-            else:
-                # the trial operator is unitary on the truncated space, so the accumulated weight always reaches the threshold: the tail guard is the
-                # only convergence test.  Squeezing conserves the photon-number parity – every second level stays exactly empty – so a guard that reads
-                # the last level alone is blind whenever that level has the wrong parity
-                covered: Set[int] = set()
+                def is_tail(sub: ast.Subscript) -> bool:
+                    return _base_is_result(sub.value) and bool(_offsets(sub.slice))
+
+                def outer_sub(x: ast.AST) -> ast.AST:
+                    while isinstance(parents.get(id(x)), ast.Subscript) and parents[id(x)].value is x:
+                        x = parents[id(x)]
+                    return x
+
+                def wrapped(x: ast.AST, pred) -> bool:
+                    """some enclosing expression of x (through once-bound names that carry it) satisfies pred"""
+                    seen = 0
+                    while x is not None and seen < 40:
+                        seen += 1
+                        if isinstance(x, ast.expr) and pred(x):
+                            return True
+                        p_ = parents.get(id(x))
+                        if isinstance(p_, ast.Assign) and len(p_.targets) == 1 and isinstance(p_.targets[0], ast.Name) and p_.value is x:
+                            # follow the use sites of the name (a name bound in both level branches – `tail = …` – shares its uses: the predicate has
+                            # to hold at every one of them)
+                            uses = [u for u in ast.walk(fn) if isinstance(u, ast.Name) and u.id == p_.targets[0].id and isinstance(u.ctx, ast.Load)]
+                            return bool(uses) and all(wrapped(u, pred) for u in uses)
+                        if isinstance(p_, (ast.stmt, ast.comprehension)) or p_ is None:
+                            return False
+                        x = p_
+                    return False
+
+                # (a) tail guard
+                tails = [outer_sub(x) for x in ast.walk(fn) if id(x) in region and isinstance(x, ast.Subscript) and is_tail(x)]
+                guarded = False
                 for t in tails:
-                    if wrapped(t, lambda e: isinstance(e, ast.Compare)):
-                        inner = t
-                        while isinstance(inner, ast.Subscript) and not _base_is_result(inner.value):
-                            inner = inner.value
-                        if isinstance(inner, ast.Subscript):
-                            covered |= _offsets(inner.slice)
-                (obs.append(ok("EST-TAIL", fi, f"tail-window@{kind}", P, tails[0], "the tail guard reads the last two levels (both parities)")) if {1, 2} <= covered else
-                 obs.append(bad("EST-TAIL", fi, f"tail-window@{kind}", P, tails[0],
-                                "the tail guard reads the last level only: a parity-conserving operator (squeezing) leaves every second level exactly empty, so with a trial space whose last level has the "
-                                "other parity the guard passes however much weight sits against the cutoff – the squeezed vacuum with zeta = 1 is accepted at 7 levels (infidelity 6e-2 against a threshold of 1e-6)")))
-            # (b) accumulated weights: every other read of an entry of the result
-            reads = [outer_sub(x) for x in ast.walk(fn) if id(x) in region and isinstance(x, ast.Subscript) and src(x.value) == rname and not is_tail(x)]
-            for r in reads:
-                wcount[kind] = wcount.get(kind, 0) + 1
-                pred = (lambda e: is_abs2(e) is not None) if kind == "Vector" else (lambda e: is_abs(e) is not None or (isinstance(e, ast.Attribute) and e.attr == "real") or call_np(e) == "real")
-                what = "|amplitude|^2" if kind == "Vector" else "the (modulus / real part of the) diagonal entry"
-                (obs.append(ok("EST-TAIL", fi, f"weight@{kind}#{wcount[kind]}", P, r, f"accumulated weight is {what}")) if wrapped(r, pred) else
-                 obs.append(bad("EST-TAIL", fi, f"weight@{kind}#{wcount[kind]}", P, r, f"the accumulated weight read from `{src(r)}` is not {what}")))
-        # (c) accepting returns inside the accumulation loops
-        for l in [x for x in walk_no_nested(fn) if isinstance(x, ast.For)]:
-            for r in [y for y in walk_no_nested(l) if isinstance(y, ast.Return) and y.value is not None]:
-                v = r.value
-                if (isinstance(v, ast.UnaryOp) and isinstance(v.op, ast.USub)) or (isinstance(v, ast.Constant) and isinstance(v.value, int) and v.value < 0):
-                    continue
-                n_ret += 1
-                good = isinstance(v, ast.BinOp) and isinstance(v.op, ast.Add) and isinstance(v.right, ast.Constant) and isinstance(v.right.value, int) and v.right.value >= 1
-                (obs.append(ok("EST-TAIL", fi, f"cutoff-covers#{n_ret}", P, r, "cutoff = level reached + k, k >= 1")) if good else
-                 obs.append(bad("EST-TAIL", fi, f"cutoff-covers#{n_ret}", P, r, f"`return {src(v)}`: the cutoff does not contain the level at which the threshold was reached")))
+                    # the comparison the tail value ends up in
+                    modulus = wrapped(t, lambda e: is_abs(e) is not None or is_abs2(e) is not None or (kind == "Matrix" and isinstance(e, ast.Attribute) and e.attr == "real"))
+                    cmp_reach = wrapped(t, lambda e: isinstance(e, ast.Compare))
+                    if not cmp_reach:
+                        continue
+                    guarded = True
+                    (obs.append(ok("EST-TAIL", fi, f"tail-guard@{kind}", P, t, "the tail guard compares a modulus")) if modulus else
+                     obs.append(bad("EST-TAIL", fi, f"tail-guard@{kind}", P, t,
+                                    f"the tail guard compares `{src(t)}` itself with its bound: a negative or complex last amplitude passes the guard whatever its size, so the estimate depends on the phase of the parameter")))
+                if not guarded:
+                    obs.append(bad("EST-TAIL", fi, f"tail-guard@{kind}", P, fn, "the estimate is accepted without looking at the last level of the trial space: weight pushed against the cutoff goes unnoticed"))
+                else:
+                    # the trial operator is unitary on the truncated space, so the accumulated weight always reaches the threshold: the tail guard is the
+                    # only convergence test.  Squeezing conserves the photon-number parity – every second level stays exactly empty – so a guard that reads
+                    # the last level alone is blind whenever that level has the wrong parity
+                    covered: Set[int] = set()
+                    for t in tails:
+                        if wrapped(t, lambda e: isinstance(e, ast.Compare)):
+                            inner = t
+                            while isinstance(inner, ast.Subscript) and not _base_is_result(inner.value):
+                                inner = inner.value
+                            if isinstance(inner, ast.Subscript):
+                                covered |= _offsets(inner.slice)
+                    (obs.append(ok("EST-TAIL", fi, f"tail-window@{kind}", P, tails[0], "the tail guard reads the last two levels (both parities)")) if {1, 2} <= covered else
+                     obs.append(bad("EST-TAIL", fi, f"tail-window@{kind}", P, tails[0],
+                                    "the tail guard reads the last level only: a parity-conserving operator (squeezing) leaves every second level exactly empty, so with a trial space whose last level has the "
+                                    "other parity the guard passes however much weight sits against the cutoff – the squeezed vacuum with zeta = 1 is accepted at 7 levels (infidelity 6e-2 against a threshold of 1e-6)")))
+                # (b) accumulated weights: every other read of an entry of the result
+                reads = [outer_sub(x) for x in ast.walk(fn) if id(x) in region and isinstance(x, ast.Subscript) and src(x.value) == rname and not is_tail(x)]
+                for r in reads:
+                    wcount[kind] = wcount.get(kind, 0) + 1
+                    pred = (lambda e: is_abs2(e) is not None) if kind == "Vector" else (lambda e: is_abs(e) is not None or (isinstance(e, ast.Attribute) and e.attr == "real") or call_np(e) == "real")
+                    what = "|amplitude|^2" if kind == "Vector" else "the (modulus / real part of the) diagonal entry"
+                    (obs.append(ok("EST-TAIL", fi, f"weight@{kind}#{wcount[kind]}", P, r, f"accumulated weight is {what}")) if wrapped(r, pred) else
+                     obs.append(bad("EST-TAIL", fi, f"weight@{kind}#{wcount[kind]}", P, r, f"the accumulated weight read from `{src(r)}` is not {what}")))
+            # (c) accepting returns inside the accumulation loops
+            for l in [x for x in walk_no_nested(fn) if isinstance(x, ast.For)]:
+                for r in [y for y in walk_no_nested(l) if isinstance(y, ast.Return) and y.value is not None]:
+                    v = r.value
+                    if (isinstance(v, ast.UnaryOp) and isinstance(v.op, ast.USub)) or (isinstance(v, ast.Constant) and isinstance(v.value, int) and v.value < 0):
+                        continue
+                    n_ret += 1
+                    good = isinstance(v, ast.BinOp) and isinstance(v.op, ast.Add) and isinstance(v.right, ast.Constant) and isinstance(v.right.value, int) and v.right.value >= 1
+                    (obs.append(ok("EST-TAIL", fi, f"cutoff-covers#{n_ret}", P, r, "cutoff = level reached + k, k >= 1")) if good else
+                     obs.append(bad("EST-TAIL", fi, f"cutoff-covers#{n_ret}", P, r, f"`return {src(v)}`: the cutoff does not contain the level at which the threshold was reached")))
+        return obs, found, wcount, n_ret
+    # as written (the function and the private methods it calls); when the trial result is handed to a helper as an argument expression the
+    # assignment only exists in the tree with the helpers spliced in: that tree is read instead
+    sub_obs, found, wcount, n_ret = _scan(closure, True)
+    if not found["Vector"] or not found["Matrix"]:
+        sub_obs, found, wcount, n_ret = _scan([fi], False)
+    obs += sub_obs
     if not found["Vector"] or not found["Matrix"]:
         raise AnalysisError(f"EST-TAIL: trial results found {found} (expected the ket and the density-matrix application)")
     if not n_ret:
